@@ -855,6 +855,7 @@ class NumWalker(Walker):
         num2.defs, num2.types, num2.fresh, num2.parent = self.num.defs, self.num.types, self.num.fresh, self.num
         w = NumWalker(cb, self.cfg, self.facts, self.contracts, None, num=num2, depth=self.depth + 1, max_paths=self.max_paths)
         w.inline = self.inline
+        w.template_exprs = getattr(self, "template_exprs", [])
         w.gen_map = mir.generic_map(self, callee)
         w.root_file = getattr(self, "root_file", None) or mir.span_file(self.body.b.get("span") if hasattr(self.body, "b") else None)
         w.region, w.region_head = None, None
@@ -902,6 +903,7 @@ class NumWalker(Walker):
         w.region = set(region)
         w.region_head = head
         w.inline = self.inline
+        w.template_exprs = getattr(self, "template_exprs", [])
         w.unroll = self.unroll
         s2 = self.fork(st)
         s2["x_inloop"] = head
@@ -1134,6 +1136,25 @@ class NumWalker(Walker):
                     havocs(v, base_env.get(l, self.local_term(st, l)), ("env", l))
             for k, v in cur_mem.items():
                 havocs(v, base_mem.get(k, k), ("mem", k))
+            # bounds by expressions over quantities fixed before the loop that the rule supplies (ghost constants of a specification):
+            # tried like the numeric ones - kept only if they hold at entry and are preserved by every iteration
+            texprs = [e(num) for e in getattr(self, "template_exprs", [])]
+            if texprs:
+                def havocs_e(v, basev, getter):
+                    if isinstance(v, tuple) and v and v[0] == "havoc" and num.aff(v) is not None:
+                        a0 = num.aff(basev)
+                        if a0 is None:
+                            return
+                        for e in texprs:
+                            if lp.entails(num.close(entry_store, [le(a0, e)]), le(a0, e)):
+                                cands.append((v, "le", e, getter))
+                            if lp.entails(num.close(entry_store, [le(e, a0)]), le(e, a0)):
+                                cands.append((v, "ge", e, getter))
+                for l, v in cur_env.items():
+                    if self.body.local_name(l):
+                        havocs_e(v, base_env.get(l, self.local_term(st, l)), ("env", l))
+                for k, v in cur_mem.items():
+                    havocs_e(v, base_mem.get(k, k), ("mem", k))
         # relational templates over pairs of havocked variables:  x + y  and  x - y  never above / below their entry value
         # (a search interval [left, left + len) that only shrinks; a cursor and a remaining count that move together)
         if bk and g is not None:
@@ -1152,6 +1173,13 @@ class NumWalker(Walker):
                             e0 = num.aff(hv2[i][1]) + num.aff(hv2[j][1]).scale(sgn)
                             for kind in ("le", "ge"):
                                 cands.append(("pair", kind, e0, (hv2[i], hv2[j], sgn)))
+                            for e_ in ([e(num) for e in getattr(self, "template_exprs", [])] if sgn == 1 else []):
+                                # the sum / difference of two loop variables against a supplied expression (left + len >= T)
+                                es_ = self.full_store(st)
+                                if lp.entails(num.close(es_, [le(e0, e_)]), le(e0, e_)):
+                                    cands.append(("pair", "le", e_, (hv2[i], hv2[j], sgn)))
+                                if lp.entails(num.close(es_, [le(e_, e0)]), le(e_, e0)):
+                                    cands.append(("pair", "ge", e_, (hv2[i], hv2[j], sgn)))
                             if sgn == -1:
                                 # an order between the two that holds at entry (left <= right of a shrinking interval)
                                 es = self.full_store(st)
@@ -1180,7 +1208,7 @@ class NumWalker(Walker):
             return num.aff(nv) if nv is not None else None
 
         def cand_rhs(c):
-            return c[2] if c[0] == "pair" else const(c[2])
+            return c[2] if (c[0] == "pair" or isinstance(c[2], Aff)) else const(c[2])
 
         def cand_cons(cs):
             out = []
@@ -1188,9 +1216,14 @@ class NumWalker(Walker):
                 a = cand_aff(c)
                 out.append(le(a, cand_rhs(c)) if c[1] == "le" else le(cand_rhs(c), a))
             return out
-        for rnd in range(3):
+        # candidates are dropped until all that remain are preserved under the assumption of exactly themselves (a fixpoint: each
+        # round removes at least one); should the bound on rounds be hit, none is assumed
+        max_rounds = 3 + len(cands)
+        for rnd in range(max_rounds + 1):
             if not (inv or cands):
                 break
+            if rnd == max_rounds:
+                cands = []
             g2 = self.fork(g)
             g2["x_lin"] = list(self.store_of(g))
             g2["x_done"] = len(g2["log"])
@@ -1218,9 +1251,13 @@ class NumWalker(Walker):
             cands = keep
         self.summ[head] = {"vars": {(self.body.local_name(l) or "_%d" % l): mir.fmt(v)[:60] for l, v in cur_env.items()},
                            "fields": {mir.fmt(k)[:40]: mir.fmt(v)[:60] for k, v in cur_mem.items()}, "invariants": len(inv),
-                           "bounds": [("%s %s %d" % (mir.fmt(c[0]), "<=" if c[1] == "le" else ">=", c[2])) if c[0] != "pair" else
+                           "bounds": [("%s %s %s" % (mir.fmt(c[0]), "<=" if c[1] == "le" else ">=", c[2])) if c[0] != "pair" else
                                       ("%s %s %s %s entry value" % (mir.fmt(c[3][0][0])[:30], "+" if c[3][2] > 0 else "-", mir.fmt(c[3][1][0])[:30], "<=" if c[1] == "le" else ">="))
                                       for c in cands]}
+        for p in res:
+            if p.end[0] == "back":
+                # what each loop variable was at the head of the iteration this path ends (for ranking-function rules)
+                p.state["x_head_env"] = {l: (v, self.body.local_name(l)) for l, v in cur_env.items()}
         self.continue_after(res, stack, record_inner=True)
 
     def atom_is_head_level(self, a, g, ncall=0, pre_havocs=()):
